@@ -983,6 +983,36 @@ func (fx *FuncCtx) execLoop(pre *State, ld *loopDesc) Flow {
 			return And(Ge(v, IntLit(0)), ld.condOrEnd(s, v))
 		}})
 	}
+	// candidates derived from quantified ensures clauses: forall(k, lo, hi, P) gives
+	// forall(k, lo, c, P) (ascending counter c) and forall(k, c+1, hi, P) (descending)
+	if fx.con != nil && fx.inlineDepth == 0 {
+		for ei, en := range fx.con.Ensures {
+			call, ok := en.Expr.(*ast.CallExpr)
+			if !ok {
+				continue
+			}
+			if id, ok := call.Fun.(*ast.Ident); !ok || id.Name != "forall" || len(call.Args) != 4 {
+				continue
+			}
+			for _, l := range lins {
+				l := l
+				ei := ei
+				mk := func(name string, lo, hi func(c Term, env *specEnv) ast.Expr) {
+					cands = append(cands, cand{name: fmt.Sprintf("ensures%d@%s:%s", ei+1, l.obj.Name(), name), eval: func(s *State, it Term) Term {
+						c, _ := getInt(s, l.obj)
+						env := &specEnv{fx: fx, cur: s, old: fx.entry, binds: map[string]sval{"__c": {c, nil}}, entryParams: true, pos: ld.node.Pos()}
+						q := &ast.CallExpr{Fun: call.Fun, Args: []ast.Expr{call.Args[0], lo(c, env), hi(c, env), call.Args[3]}}
+						return fx.specBool(env, q)
+					}})
+				}
+				cIdent := ast.NewIdent("__c")
+				mk("prefix", func(c Term, e *specEnv) ast.Expr { return call.Args[1] }, func(c Term, e *specEnv) ast.Expr { return cIdent })
+				mk("suffix", func(c Term, e *specEnv) ast.Expr {
+					return &ast.BinaryExpr{X: cIdent, Op: token.ADD, Y: &ast.BasicLit{Kind: token.INT, Value: "1"}}
+				}, func(c Term, e *specEnv) ast.Expr { return call.Args[2] })
+			}
+		}
+	}
 	// user invariants
 	if spec != nil {
 		for i, inv := range spec.Invariants {
@@ -1008,6 +1038,7 @@ func (fx *FuncCtx) execLoop(pre *State, ld *loopDesc) Flow {
 		fx.discard++
 		var goals []Term
 		var idxs []int
+		var slow []bool
 		for i, c := range cands {
 			g, ok := fx.tryCand(c, pre.clone(), IntLit(0))
 			if !ok {
@@ -1016,8 +1047,9 @@ func (fx *FuncCtx) execLoop(pre *State, ld *loopDesc) Flow {
 			}
 			goals = append(goals, g)
 			idxs = append(idxs, i)
+			slow = append(slow, c.user)
 		}
-		res := fx.proveAll(pre.hypTerms(), goals, timeout)
+		res := fx.proveAll(pre.hypTerms(), goals, timeout, slow)
 		for j, ok := range res {
 			if debugHoudini {
 				fmt.Printf("  [houdini %s L%d init] %v %s : %s\n", fx.short, ord, ok, cands[idxs[j]].name, goals[j].S)
@@ -1043,6 +1075,7 @@ func (fx *FuncCtx) execLoop(pre *State, ld *loopDesc) Flow {
 			it1 := Add(it, IntLit(1))
 			var goals []Term
 			var idxs []int
+			var slow []bool
 			for i, c := range cands {
 				if !alive[i] {
 					continue
@@ -1055,8 +1088,9 @@ func (fx *FuncCtx) execLoop(pre *State, ld *loopDesc) Flow {
 				}
 				goals = append(goals, g)
 				idxs = append(idxs, i)
+				slow = append(slow, c.user)
 			}
-			res := fx.proveAll(end.hypTerms(), goals, timeout)
+			res := fx.proveAll(end.hypTerms(), goals, timeout, slow)
 			for j, ok := range res {
 				if debugHoudini {
 					fmt.Printf("  [houdini %s L%d keep r%d] %v %s : %s\n", fx.short, ord, rounds, ok, cands[idxs[j]].name, goals[j].S)
@@ -1181,8 +1215,12 @@ func (fx *FuncCtx) tryCand(c cand, s *State, it Term) (t Term, ok bool) {
 }
 
 // proveAll checks goals in parallel under the same hypotheses.
-func (fx *FuncCtx) proveAll(hyps []Term, goals []Term, timeoutMs int) []bool {
+func (fx *FuncCtx) proveAll(hyps []Term, goals []Term, timeoutMs int, slow ...[]bool) []bool {
 	res := make([]bool, len(goals))
+	var slowMask []bool
+	if len(slow) > 0 {
+		slowMask = slow[0]
+	}
 	done := make(chan int, len(goals))
 	for i := range goals {
 		i := i
@@ -1197,7 +1235,11 @@ func (fx *FuncCtx) proveAll(hyps []Term, goals []Term, timeoutMs int) []bool {
 			if q == "" {
 				res[i] = true
 			} else {
-				r := solve(q, timeoutMs, false)
+				tmo := timeoutMs
+				if slowMask != nil && i < len(slowMask) && slowMask[i] {
+					tmo = timeoutMs * 5
+				}
+				r := solve(q, tmo, false)
 				res[i] = r.Status == "unsat"
 			}
 			done <- i
@@ -1391,7 +1433,11 @@ func (fx *FuncCtx) collectCallMods(ms *modSet, call *ast.CallExpr) {
 	}
 	callee := typeutil.StaticCallee(fx.info, call)
 	if callee == nil {
-		// interface / function value: pure methods only are supported, so nothing is modified
+		callee = fx.resolveIfaceCallee(call)
+	}
+	if callee == nil {
+		// closure literal called in place: its body is part of the loop body and is scanned by the caller
+		// other interface / function values: pure methods only are supported, so nothing is modified
 		return
 	}
 	if callee.Pkg() != nil && !strings.HasPrefix(callee.Pkg().Path(), "gonum.org/v1/gonum") {
@@ -1507,4 +1553,40 @@ func pureBody(fd *ast.FuncDecl) bool {
 		return true
 	})
 	return pure
+}
+
+// resolveIfaceCallee resolves a method call through a blas / lapack interface
+// to the default implementation's method (assumption A10).
+func (fx *FuncCtx) resolveIfaceCallee(call *ast.CallExpr) *types.Func {
+	sel, ok := unparen(call.Fun).(*ast.SelectorExpr)
+	if !ok {
+		return nil
+	}
+	s := fx.info.Selections[sel]
+	if s == nil || s.Kind() != types.MethodVal {
+		return nil
+	}
+	recvT := s.Recv()
+	if p, ok := recvT.(*types.Pointer); ok {
+		recvT = p.Elem()
+	}
+	named, ok := recvT.(*types.Named)
+	if !ok || named.Obj().Pkg() == nil {
+		return nil
+	}
+	target, ok := implFor[named.Obj().Pkg().Path()]
+	if !ok {
+		return nil
+	}
+	pi := fx.eng.pkgs[target]
+	if pi == nil {
+		return nil
+	}
+	obj := pi.pkg.Types.Scope().Lookup("Implementation")
+	if obj == nil {
+		return nil
+	}
+	m, _, _ := types.LookupFieldOrMethod(obj.Type(), true, pi.pkg.Types, s.Obj().Name())
+	callee, _ := m.(*types.Func)
+	return callee
 }
